@@ -29,13 +29,15 @@ VARIABLES tid, l, used,
           put, taken, written, delivered,     \* byte counters along the path
           pumpsOpen, pumpsStopped,            \* pumps seen / stopped
           inAppend, curPos, curN, lastPos,    \* copier's append in progress, its saved position
-          procExited, drained
+          procExited, drained,
+          proxyState                          \* alias stage: "running" | "returned" | "closing"
 
-tvars == <<tid, l, used, put, taken, written, delivered, pumpsOpen, pumpsStopped, inAppend, curPos, curN, lastPos, procExited, drained>>
+tvars == <<tid, l, used, put, taken, written, delivered, pumpsOpen, pumpsStopped, inAppend, curPos, curN, lastPos, procExited, drained, proxyState>>
 
 TInit == /\ tid \in 1..Len(Traces) /\ l = 1 /\ used = {}
          /\ put = 0 /\ taken = 0 /\ written = 0 /\ delivered = 0 /\ pumpsOpen = {} /\ pumpsStopped = {}
          /\ inAppend = FALSE /\ curPos = 0 /\ curN = 0 /\ lastPos = 0 /\ procExited = FALSE /\ drained = FALSE
+         /\ proxyState = "running"
 
 Steps == Traces[tid].steps
 
@@ -46,47 +48,56 @@ TStep ==
   /\ LET e == Steps[l] IN
        CASE e.ev = "pump.before_read" ->
               /\ e.fd \notin pumpsStopped /\ pumpsOpen' = pumpsOpen \cup {e.fd}
-              /\ Keep(<<put, taken, written, delivered, pumpsStopped, inAppend, curPos, curN, lastPos, procExited, drained>>)
+              /\ Keep(<<put, taken, written, delivered, pumpsStopped, inAppend, curPos, curN, lastPos, procExited, drained, proxyState>>)
          [] e.ev = "pump.put" ->
               /\ e.fd \in pumpsOpen /\ e.fd \notin pumpsStopped /\ e.n >= 1 /\ e.n <= 1024
               /\ put' = put + e.n
-              /\ Keep(<<taken, written, delivered, pumpsOpen, pumpsStopped, inAppend, curPos, curN, lastPos, procExited, drained>>)
+              /\ Keep(<<taken, written, delivered, pumpsOpen, pumpsStopped, inAppend, curPos, curN, lastPos, procExited, drained, proxyState>>)
          [] e.ev = "pump.closed" ->
               /\ e.fd \in pumpsOpen /\ e.fd \notin pumpsStopped /\ pumpsStopped' = pumpsStopped \cup {e.fd}
-              /\ Keep(<<put, taken, written, delivered, pumpsOpen, inAppend, curPos, curN, lastPos, procExited, drained>>)
+              \* a callable-alias stage: the pump can only see end of file once the alias has returned and the
+              \* proxy thread has started to close its write ends (recorded before the close)
+              /\ (Traces[tid].alias => proxyState = "closing")
+              /\ Keep(<<put, taken, written, delivered, pumpsOpen, inAppend, curPos, curN, lastPos, procExited, drained, proxyState>>)
          [] e.ev = "copier.tell" ->
               /\ ~inAppend /\ e.n >= 1 /\ taken + e.n <= put            \* only what the pump put can be taken
               /\ e.pos >= lastPos                                       \* the saved file position never moves backwards
               /\ e.pos <= written                                       \* and lies inside the buffer
               /\ inAppend' = TRUE /\ curPos' = e.pos /\ curN' = e.n /\ taken' = taken + e.n /\ lastPos' = e.pos
-              /\ Keep(<<put, written, delivered, pumpsOpen, pumpsStopped, procExited, drained>>)
+              /\ Keep(<<put, written, delivered, pumpsOpen, pumpsStopped, procExited, drained, proxyState>>)
          [] e.ev = "copier.wrote" ->
               /\ inAppend /\ e.pos = curPos /\ e.n = curN
               /\ written' = written + e.n /\ inAppend' = FALSE
-              /\ Keep(<<put, taken, delivered, pumpsOpen, pumpsStopped, curPos, curN, lastPos, procExited, drained>>)
+              /\ Keep(<<put, taken, delivered, pumpsOpen, pumpsStopped, curPos, curN, lastPos, procExited, drained, proxyState>>)
          [] e.ev = "copier.procexit" ->
               /\ ~procExited /\ ~inAppend /\ procExited' = TRUE
-              /\ Keep(<<put, taken, written, delivered, pumpsOpen, pumpsStopped, inAppend, curPos, curN, lastPos, drained>>)
+              /\ Keep(<<put, taken, written, delivered, pumpsOpen, pumpsStopped, inAppend, curPos, curN, lastPos, drained, proxyState>>)
          [] e.ev = "copier.drained" ->
               /\ procExited /\ ~inAppend /\ written = put /\ taken = put /\ drained' = TRUE
-              /\ Keep(<<put, taken, written, delivered, pumpsOpen, pumpsStopped, inAppend, curPos, curN, lastPos, procExited>>)
+              /\ Keep(<<put, taken, written, delivered, pumpsOpen, pumpsStopped, inAppend, curPos, curN, lastPos, procExited, proxyState>>)
          [] e.ev = "main.read" ->
               \* conformant: nothing is delivered that is not in the buffer
-              /\ \/ delivered + e.n <= written /\ used' = used
-                 \/ /\ "Dev_UnlockedRead" \in Deviations /\ delivered + e.n > written
+              /\ \/ (IF Traces[tid].alias THEN delivered + e.n <= put ELSE delivered + e.n <= written) /\ used' = used
+                 \/ /\ "Dev_UnlockedRead" \in Deviations /\ ~Traces[tid].alias /\ delivered + e.n > written
                     /\ used' = used \cup {"Dev_UnlockedRead"}
               /\ delivered' = delivered + e.n
-              /\ Keep(<<put, taken, written, pumpsOpen, pumpsStopped, inAppend, curPos, curN, lastPos, procExited, drained>>)
+              /\ Keep(<<put, taken, written, pumpsOpen, pumpsStopped, inAppend, curPos, curN, lastPos, procExited, drained, proxyState>>)
          \* the order in which the real "fully read?" reads its flags (instrumented reader, see the driver):
          \* read number k must be Capture!CodeOrder[k]; a false flag ends the reads; the answer is "yes" only
          \* after all three were read
+         [] e.ev = "proxy.returned" ->
+              /\ proxyState = "running" /\ proxyState' = "returned"
+              /\ Keep(<<put, taken, written, delivered, pumpsOpen, pumpsStopped, inAppend, curPos, curN, lastPos, procExited, drained>>)
+         [] e.ev = "proxy.before_close" ->
+              /\ proxyState = "returned" /\ proxyState' = "closing"
+              /\ Keep(<<put, taken, written, delivered, pumpsOpen, pumpsStopped, inAppend, curPos, curN, lastPos, procExited, drained>>)
          [] e.ev = "fr.read" ->
               /\ put < 3 /\ e.flag = <<"closed", "thread", "empty">>[put + 1] /\ put' = put + 1
-              /\ Keep(<<taken, written, delivered, pumpsOpen, pumpsStopped, inAppend, curPos, curN, lastPos, procExited, drained>>)
+              /\ Keep(<<taken, written, delivered, pumpsOpen, pumpsStopped, inAppend, curPos, curN, lastPos, procExited, drained, proxyState>>)
          [] e.ev = "fr.answer" ->
               /\ (e.flag = "yes" => put = 3)
-              /\ Keep(<<put, taken, written, delivered, pumpsOpen, pumpsStopped, inAppend, curPos, curN, lastPos, procExited, drained>>)
-         [] OTHER -> Keep(<<put, taken, written, delivered, pumpsOpen, pumpsStopped, inAppend, curPos, curN, lastPos, procExited, drained>>)
+              /\ Keep(<<put, taken, written, delivered, pumpsOpen, pumpsStopped, inAppend, curPos, curN, lastPos, procExited, drained, proxyState>>)
+         [] OTHER -> Keep(<<put, taken, written, delivered, pumpsOpen, pumpsStopped, inAppend, curPos, curN, lastPos, procExited, drained, proxyState>>)
   /\ (Steps[l].ev # "main.read" => used' = used)
   /\ l' = l + 1 /\ tid' = tid
 
